@@ -54,6 +54,20 @@ def run_c10(ctx, chk):
             ht = b.blocks[h]['term']
             if ht['k'] == 'call' and ((ht['func'].get('fn') or {}).get('path', '')).endswith('::next'):
                 ranges.append((f, loop_range(ctx, sr['engine'], f, h), ht['args'][0]['place']['ty']))
+    # the same iteration written with iterator adaptors: `(0..lines).map(render).collect()`
+    coll_rows = []
+    for r_ in sr['results'].get(disp, []):
+        for (st, ret) in r_.finals:
+            for ev in st.event_list():
+                if ev[0] == 'iter.collect' and ev[-1] in [disp] + prog.closures_of.get(disp, []):
+                    _k, lo, hi, incl = ev[1]
+                    lines = get(sr['engine'], st, 'lines')
+                    zero = isinstance(lo, NumV) and lo.sym is None and lo.k == 0
+                    full = isinstance(hi, NumV) and isinstance(lines, NumV) and not incl and sr['engine'].prove_cmp(st, 'eq', hi, lines) is True
+                    if zero and full:
+                        coll_rows.append((ev[-1], ev[2], ev[3]))
+    for (f_, ops_, clos_) in sorted(set(coll_rows)):
+        ranges.append((f_, ('0', 'lines'), 'collect over std::ops::Range<u32> %s' % (list(ops_),) if 'rev' not in ops_ else 'Rev collect'))
     rset = {r[1] for r in ranges}
     ok = ('0', 'lines') in rset and any(r and r[0] == '0' and r[1].endswith('columns') for r in rset) and \
         all('Range<u32>' in r[2] and 'Rev' not in r[2] for r in ranges)
@@ -62,11 +76,50 @@ def run_c10(ctx, chk):
     # D3b: no state is carried from the rendering of one row to the next (only the result vector and
     # the row iterator are loop-carried in the row loop)
     carried = loop_carried(prog, disp, ('0', 'lines'), ctx, sr)
+    if carried is None and coll_rows:
+        # adaptor form: what survives from one row to the next is what the row closure captures mutably
+        carried = []
+        for (f_, ops_, clos_) in sorted(set(coll_rows)):
+            for c in clos_:
+                carried += closure_carried(prog, c)
     bad = [c for c in carried if not (c[1] == 'std::vec::Vec<std::string::String>' or 'Range<u32>' in c[1])]
     chk.instance('R-RENDER', short(disp), 'each row is rendered independently of the others', carried is not None and not bad,
                  detail='loop-carried mutable locals of the row loop: %s' % (carried,), span=body.span,
                  what='state other than the result vector survives from one row to the next while rendering: %s' % [(b[0], b[1]) for b in bad])
     chk.trust('may-write analysis E3 (mtsa/effects.py)', 'collection summaries')
+
+
+def closure_carried(prog, c, depth=0):
+    """state a closure can carry from one call to the next: captures by mutable borrow, owned captures
+    it assigns to, and (transitively) the same for closures it captures"""
+    cb = prog.bodies.get(c)
+    if cb is None:
+        return [(short(c), 'closure body not found')]
+    out = []
+    ups = cb.j.get('upvars', [])
+    assigned = set()
+    for bb in cb.blocks:
+        for s_ in bb['stmts']:
+            if s_['k'] == 'assign' and s_['place']['local'] == 1:
+                names = [e['name'] for e in s_['place']['proj'] if e['k'] == 'field']
+                if names and names[0].isdigit():
+                    assigned.add(int(names[0]))
+    for i, u in enumerate(ups):
+        b = u.get('borrow')
+        ty = u.get('ty', '?')
+        if 'closure@' in ty or '{closure' in ty:
+            if depth < 3:
+                for c2 in prog.closures_of.get(cb.parent, []) + prog.closures_of.get(c, []):
+                    if c2 != c and prog.bodies[c2].span.get('line') and ('%s' % prog.bodies[c2].span.get('line')) in ty:
+                        out += closure_carried(prog, c2, depth + 1)
+            if b in ('mut', 'uniq'):
+                out.append((u.get('name', '?'), ty))
+            continue
+        if b in ('mut', 'uniq'):
+            out.append((u.get('name', '?'), ty))
+        elif b in ('value', 'use') and i in assigned:
+            out.append((u.get('name', '?'), ty))
+    return out
 
 
 def loop_carried(prog, func, want_range, ctx, sr):
